@@ -153,6 +153,45 @@ def real(m):
     return real_tx(m) if m["kind"] == "tx" else real_rx(m)
 
 
+def assign(o, m):
+    """set the fields of message dict m on an EXISTING real object by plain attribute assignment (what toolkit code does)"""
+    D = toolkit()
+    o.ver, o.fn, o.tn = m["ver"], m["fn"], m["tn"]
+    if m["kind"] == "tx":
+        o.pwr = m["pwr"]
+        o.burst = None if m["burst"] is None else bytearray(m["burst"])
+    else:
+        o.rssi, o.toa256, o.nope_ind = m["rssi"], m["toa"], m["nope"]
+        o.mod_type = None if m["mod"] is None else list(D.Modulation)[m["mod"]]
+        o.tsc_set, o.tsc, o.ci = m["tset"], m["tsc"], m["ci"]
+        o.burst = None if m["burst"] is None else array("b", m["burst"])
+    return o
+
+
+def gen_reuse_check(ctx, msgs, fresh_obs, keyp):
+    """encode the same messages, in order, with ONE long-lived object per direction whose fields are re-assigned before each
+    gen_msg(): outcome and octets must equal those of a fresh object (no validation or encoding result may be remembered
+    across field changes).  msgs: [(message dict, legacy)], fresh_obs: do_gen results"""
+    objs = {}
+    n = 0
+    for k, (m, legacy) in enumerate(msgs):
+        kind = m["kind"]
+        if kind not in objs:
+            objs[kind] = new_obj(kind)
+        try:
+            assign(objs[kind], m)
+            got = [0] + list(objs[kind].gen_msg(legacy))
+        except Exception as e:  # noqa
+            got = exc_class(e)
+        n += 1
+        if got != fresh_obs[k]:
+            ctx.oracle_fail("gen_msg on an object that encoded another message before differs from gen_msg on a fresh object with the same fields",
+                            dict(msg=short(m), legacy=legacy, previous=short(msgs[k - 1][0]) if k else None), key=keyp + ":" + ("outcome" if got[0] != fresh_obs[k][0] else "octets"),
+                            expected=fresh_obs[k][:12], observed=got[:12])
+            objs[kind] = new_obj(kind)      # report each divergence once
+    ctx.count("reused_object_encodings_compared", n)
+
+
 def from_real(o):
     D = toolkit()
     if isinstance(o, D.TxMsg):
